@@ -1132,7 +1132,8 @@ fn write_code<'a, 'b: 'a>(writer: &mut impl ClassWrite, code: &'b Code, pool: &m
 			if lv.signature.is_some() { sign += 1 }
 		}
 
-		if desc > 0 {
+		// an empty list stands for an empty table (like for the line numbers above), not for no table
+		if desc > 0 || local_variables.is_empty() {
 			attribute_count += 1;
 			write_attribute(&mut buffer, pool, attribute::LOCAL_VARIABLE_TABLE, |w, pool| {
 				w.write_usize_as_u16(desc)?; // TODO: .context
